@@ -16,6 +16,11 @@ class FormatError(Exception):
     pass
 
 
+class Unsupported(FormatError):
+    """A construct which may be valid in the format but is outside the subset this reader interprets
+    (a limitation of the reader: reported as harness problem, never as a violation)."""
+
+
 _NUM = r'[-+]?(?:\d+\.?\d*|\.\d+)(?:[eE][-+]?\d+)?'
 
 
@@ -42,7 +47,7 @@ def parse_svg_path(d):
             continue
         m = _PATH_TOK.match(d, pos)
         if not m:
-            raise FormatError('unsupported path data at %d: %r' % (pos, d[pos:pos + 10]))
+            raise Unsupported('unsupported path data at %d: %r' % (pos, d[pos:pos + 10]))
         toks.append(m.group(0))
         pos = m.end()
     segs, polys = [], []
@@ -68,7 +73,7 @@ def parse_svg_path(d):
             if cmd is None:
                 raise FormatError('path does not start with a command')
             if cmd in 'MmzZ':
-                raise FormatError('implicit lineto / stray number is not expected')
+                raise Unsupported('implicit lineto / stray number is not expected')
             fresh = False
         if cmd in 'Mm':
             a, b = take(), take()
@@ -158,7 +163,7 @@ def read_svg(data, encoding='utf-8'):
             return F(1)
         m = re.fullmatch(r'scale\((%s)\)' % _NUM, t)
         if not m:
-            raise FormatError('unsupported transform %r' % t)
+            raise Unsupported('unsupported transform %r' % t)
         return num(m.group(1))
 
     def handle_path(el, scale):
@@ -204,10 +209,10 @@ def read_svg(data, encoding='utf-8'):
             sc = transform_of(el)
             for sub in el:
                 if sub.tag.split('}')[-1] != 'path':
-                    raise FormatError('unexpected element in group')
+                    raise Unsupported('unexpected element in group')
                 handle_path(sub, sc)
         else:
-            raise FormatError('unexpected element %r' % t)
+            raise Unsupported('unexpected element %r' % t)
     res['segments'] = segments
     res['backgrounds'] = backgrounds
     res['order'] = order
@@ -267,7 +272,7 @@ def read_eps(text):
         elif tok == 'scale':
             sy = stack.pop(); sx = stack.pop()
             if sx != sy:
-                raise FormatError('anisotropic scale')
+                raise Unsupported('anisotropic scale')
             scale *= sx
         elif tok == 'newpath':
             path = []
@@ -297,7 +302,7 @@ def read_eps(text):
             for t in defs[tok]:
                 run(t)
         else:
-            raise FormatError('unknown PS operator %r' % tok)
+            raise Unsupported('unknown PS operator %r' % tok)
     while i < len(toks):
         tok = toks[i]
         if tok.startswith('/'):
@@ -467,7 +472,7 @@ def read_pdf(data):
                 if p0[1] != p1[1]:
                     raise FormatError('non horizontal line')
                 if ctm[1] != 0 or ctm[2] != 0 or ctm[0] != ctm[3]:
-                    raise FormatError('unexpected CTM')
+                    raise Unsupported('unexpected CTM')
                 path.append((p0[0], p0[1], p1[0], ctm[0]))
                 cur = (x, y)
             elif tok == 'S':
@@ -475,7 +480,7 @@ def read_pdf(data):
                     segs.append((stroke, x1, y, x2, lw))
                 path = []
             else:
-                raise FormatError('unknown PDF operator %r' % tok)
+                raise Unsupported('unknown PDF operator %r' % tok)
         except IndexError:
             raise FormatError('PDF operand stack underflow at %r' % tok)
     if stack or path:
